@@ -470,12 +470,15 @@ func runC17(env *Env, s Scenario) {
 			if x == b {
 				return true
 			}
-			if par := levels[x].PreviousPriv; par != "" && levels[x].Deescalate != "" && !seen[par] {
+			// (parent and child with indistinguishable prompts count as one level: the link needs
+			// no command)
+			one := func(u, v string) bool { return matches(u, prompts[v]) && matches(v, prompts[u]) }
+			if par := levels[x].PreviousPriv; par != "" && (levels[x].Deescalate != "" || one(x, par)) && !seen[par] {
 				seen[par] = true
 				q = append(q, par)
 			}
 			for _, c := range names {
-				if levels[c].PreviousPriv == x && levels[c].Escalate != "" && !seen[c] {
+				if levels[c].PreviousPriv == x && (levels[c].Escalate != "" || one(x, c)) && !seen[c] {
 					seen[c] = true
 					q = append(q, c)
 				}
